@@ -6,7 +6,7 @@ CONSTANTS
   MaxSaveFail = 1
   MaxArchFail = 1
   MaxRestarts = 1
-  MaxReadSkip = 0
+  MaxReadSkip = 1
   MaxChainErr = 1
 INVARIANTS TypeOK CacheIsStorage ExactAfterCleanRestart NoDuplicates
 PROPERTIES NothingLost WriteAhead
